@@ -1,3 +1,4 @@
+import Generated.Facts
 import Proofs.Bufio
 import Proofs.Inbound
 /-! # C06 — inbound messages are returned byte-exact under any fragmentation and size
@@ -81,5 +82,12 @@ theorem C06_parse_exact (qos : Nat) (flags : Nat) (topic payload : Bytes) (id : 
 /-! ## Non-vacuity: one stream, two chunkings, same `Peek` -/
 example : ((⟨16, [], none, [.data [1, 2, 3], .timeout, .data [4, 5]], false⟩ : Rd).peek 2).2.1 = [1, 2] := by decide
 example : ((⟨16, [], none, [.data [1], .data [2, 3, 4, 5]], false⟩ : Rd).peek 2).2.1 = [1, 2] := by decide
+
+/-- REGENERATED FACT. The functions that arm a read deadline while a packet is being read – as the extractor lists them on every
+run – all do so under a condition `D != 0`: with PauseTimeout left at zero (documented: no timeout protection) a packet that
+arrives one byte per network read is still returned, not cut short by a deadline that expired at once. -/
+theorem C06_fact_deadlines_respect_zero_timeout :
+    Facts.deadlineArming = ["BigMessage.ReadAll", "Client.discard", "Client.handshake", "Client.peekPacket", "writeBuffersTo", "writeTo"] ∧
+    Facts.deadlineArmingUnguarded = [] := by decide
 
 end Model
